@@ -31,9 +31,10 @@ Record behav := {
   b_revalidate_cli : bool;   (* D19: semantic validation runs again after the CLI overrides *)
   b_validate_builds : bool;  (* D18: config validate builds the check context (both checkers) *)
   b_dur_checked : bool;      (* D17: parse_duration uses checked_mul (owned by the C15 work) *)
-  b_count_exclude : bool     (* D27: structure.count_exclude globs are validated even when structure checks are off *)
+  b_count_exclude : bool;    (* D35: structure.count_exclude globs are validated even when structure checks are off *)
+  b_strict_dates : bool      (* D61: expires must be a calendar date written YYYY-MM-DD (fixed width, digits only) *)
 }.
-Definition pinned : behav := Build_behav false false false false false false.
+Definition pinned : behav := Build_behav false false false false false false false.
 
 (* ------------------------------------------------------------------ strings *)
 
@@ -176,6 +177,27 @@ Definition date_valid (s : str) : bool :=
   | _ => false
   end.
 
+(* the documented format and meaning: exactly YYYY-MM-DD in ASCII digits, month 1-12, day within the month
+   (proleptic Gregorian leap years); also what ParsedDate::parse accepts once D61 is repaired *)
+Definition digits_value (l : list N) : option N :=
+  if forallb is_digit l then Some (fold_left (fun acc c => acc * 10 + (c - 48)) l 0) else None.
+
+Definition is_leap (y : N) : bool := (y mod 4 =? 0) && (negb (y mod 100 =? 0) || (y mod 400 =? 0)).
+Definition days_in_month (y m : N) : N :=
+  if (m =? 4) || (m =? 6) || (m =? 9) || (m =? 11) then 30
+  else if m =? 2 then (if is_leap y then 29 else 28) else 31.
+
+Definition date_strict (s : str) : bool :=
+  match s with
+  | [y1; y2; y3; y4; d1; m1; m2; d2; a1; a2] =>
+    (d1 =? 45) && (d2 =? 45) &&
+    match digits_value [y1; y2; y3; y4], digits_value [m1; m2], digits_value [a1; a2] with
+    | Some y, Some m, Some d => (1 <=? m) && (m <=? 12) && (1 <=? d) && (d <=? days_in_month y m)
+    | _, _, _ => false
+    end
+  | _ => false
+  end.
+
 (* ------------------------------------------------------------------ floats: (0.0..=1.0).contains(x) on f64 bits *)
 
 Definition one_bits : N := 4607182418800017408.        (* 0x3FF0000000000000 *)
@@ -293,10 +315,12 @@ Definition opt_neg (o : option Z) : bool := match o with Some z => (z <? 0)%Z | 
 Definition warn_at_vs_limit_bad (w m : option Z) : bool :=
   match w, m with Some w, Some m => (0 <=? m)%Z && (m <=? w)%Z | _, _ => false end.
 
+Definition gate_date (bh : behav) (d : str) : bool := if b_strict_dates bh then date_strict d else date_valid d.
+
 Definition content_rule_sem (bh : behav) (i : N) (r : content_rule) : check :=
   guard (match cr_warn_at r with Some w => cr_max_lines r <=? w | None => false end) RContentRuleWarnAt i 0 ;;
   guard (b_rule_wt bh && opt_thr_bad (cr_warn_threshold r)) RContentRuleWarnThreshold i 0 ;;
-  guard (b_expires bh && match cr_expires r with Some d => negb (date_valid d) | None => false end) RContentRuleExpires i 0.
+  guard (b_expires bh && match cr_expires r with Some d => negb (gate_date bh d) | None => false end) RContentRuleExpires i 0.
 
 Definition validate_content (bh : behav) (c : config) : check :=
   guard (negb (unit_range (c_warn_threshold c))) RContentWarnThreshold 0 0 ;;
@@ -348,7 +372,7 @@ Definition struct_rule_sem (bh : behav) (i : N) (r : struct_rule) : check :=
   guard (opt_neg (sr_warn_dirs_at r)) RRuleWarnAtNeg i 2 ;;
   guard (warn_at_vs_limit_bad (sr_warn_files_at r) (sr_max_files r)) RRuleWarnAtLimit i 1 ;;
   guard (warn_at_vs_limit_bad (sr_warn_dirs_at r) (sr_max_dirs r)) RRuleWarnAtLimit i 2 ;;
-  guard (b_expires bh && match sr_expires r with Some d => negb (date_valid d) | None => false end) RStructRuleExpires i 0.
+  guard (b_expires bh && match sr_expires r with Some d => negb (gate_date bh d) | None => false end) RStructRuleExpires i 0.
 
 Definition validate_structure (bh : behav) (c : config) : check :=
   validate_structure_global c ;; first_err (struct_rule_sem bh) (s_rules c) 0.
@@ -550,7 +574,7 @@ Definition opt_warn_at_ok (w m : option Z) : bool :=
   | None => true
   | Some w => (0 <=? w)%Z && match m with Some m => (m <? 0)%Z || (w <? m)%Z | None => true end
   end.
-Definition opt_date_ok (o : option str) : bool := match o with Some d => date_valid d | None => true end.
+Definition opt_date_ok (o : option str) : bool := match o with Some d => date_strict d | None => true end.
 Definition all_ok (l : list bool) : bool := forallb (fun b => b) l.
 
 Definition content_rule_dom (r : content_rule) : bool :=
@@ -607,6 +631,12 @@ Definition k_expires (bh : behav) (c : config) : bool :=
   (existsb (fun r => negb (opt_date_ok (cr_expires r))) (c_rules c) ||
    existsb (fun r => negb (opt_date_ok (sr_expires r))) (s_rules c)).
 
+(* expires is validated, but with the lenient parser (signs, unpadded fields, day 31 in every month) *)
+Definition k_lenient_date (bh : behav) (c : config) : bool :=
+  b_expires bh && negb (b_strict_dates bh) &&
+  (existsb (fun r => negb (opt_date_ok (cr_expires r))) (c_rules c) ||
+   existsb (fun r => negb (opt_date_ok (sr_expires r))) (s_rules c)).
+
 (* values overridden from the command line are never validated: the effective configuration fails a
    check that validation.rs would have applied to the file *)
 Definition k_cli_after_validation (bh : behav) (c : config) (f : flags) : bool :=
@@ -625,4 +655,4 @@ Definition k_dormant_glob (bh : behav) (c : config) : bool :=
 
 Definition known17 (bh : behav) (c : config) (f : flags) : bool :=
   k_rule_warn_threshold bh c || k_expires bh c || k_cli_after_validation bh c f ||
-  k_overflow bh c || k_dormant_glob bh c.
+  k_overflow bh c || k_dormant_glob bh c || k_lenient_date bh c.
